@@ -236,6 +236,9 @@ where
     F: Fn(u64) -> CaseOut + Sync,
 {
     let next = AtomicU64::new(0);
+    // a run that has already seen plenty of violations stops early: it is a failing run anyway and
+    // deadlock-style violations cost seconds each
+    let violations_seen = AtomicU64::new(0);
     let total = Mutex::new(Report::default());
     std::thread::scope(|s| {
         for _ in 0..workers.max(1) {
@@ -243,7 +246,7 @@ where
                 let mut local = Report::default();
                 loop {
                     let i = next.fetch_add(1, Ordering::Relaxed);
-                    if i >= n {
+                    if i >= n || violations_seen.load(Ordering::Relaxed) >= 40 {
                         break;
                     }
                     // a panic that escapes a case (e.g. a public getter panicking inside an oracle)
@@ -269,6 +272,10 @@ where
                             co
                         }
                     };
+                    // (only for the blocking kinds: runs with recorded known findings must not be cut)
+                    if matches!(&out.verdict, Verdict::Violated(v) if v.rule == "deadlock" || v.rule.starts_with("ticker")) {
+                        violations_seen.fetch_add(1, Ordering::Relaxed);
+                    }
                     local.add(i, out);
                 }
                 total.lock().unwrap().merge(local);
